@@ -39,6 +39,30 @@ func (fv *FuncVerifier) evalCall(st *State, e *ast.CallExpr) []Val {
 	if e.Pos().IsValid() {
 		fv.curPos = e.Pos()
 	}
+	// call-site key for "after <callee>#k assert ..." directives
+	if len(fv.contract.Asserts) > 0 {
+		name := ""
+		switch f := unparen(e.Fun).(type) {
+		case *ast.Ident:
+			name = f.Name
+		case *ast.SelectorExpr:
+			name = f.Sel.Name
+			if fn := fv.calleeFunc(e); fn != nil {
+				name = funcKey(fn)
+			}
+		}
+		if name != "" {
+			if fv.siteOcc == nil {
+				fv.siteOcc = map[string]int{}
+			}
+			k := fv.siteOcc[name]
+			fv.siteOcc[name] = k + 1
+			key := fmt.Sprintf("%s#%d", name, k)
+			if _, ok := fv.contract.Asserts[key]; ok {
+				defer func() { fv.pendingAsserts = append(fv.pendingAsserts, key) }()
+			}
+		}
+	}
 	// conversion?
 	if tv, ok := fv.info().Types[e.Fun]; ok && tv.IsType() {
 		return []Val{fv.evalConversion(st, e, tv.Type)}
@@ -517,13 +541,14 @@ func (fv *FuncVerifier) havocHeaps(st *State, hs map[string]bool, all bool) {
 		}
 		fv.eng.havocAllSeen = true
 	}
-	for h := range hs {
-		fv.heapOf(st, h)
-		st.heaps[h] = fv.fresh(h, fv.eng.sc.heaps[h])
-	}
 	na := fv.fresh("alloc", "Int")
 	fv.assume(st, "(>= "+na+" "+st.alloc+")")
 	st.alloc = na
+	for h := range hs {
+		fv.heapOf(st, h)
+		st.heaps[h] = fv.fresh(h, fv.eng.sc.heaps[h])
+		fv.heapClosure(h, st.heaps[h], na)
+	}
 }
 
 // callUnknown: no contract, no model — results and reachable memory are arbitrary.
@@ -794,6 +819,9 @@ func (fv *FuncVerifier) callContract(st *State, e *ast.CallExpr, fn *types.Func,
 		na := fv.fresh("alloc", "Int")
 		fv.assume(st, "(>= "+na+" "+st.alloc+")")
 		st.alloc = na
+		for h := range hs {
+			fv.heapClosure(h, st.heaps[h], na)
+		}
 	}
 	// results
 	extra := map[string]Val{}
